@@ -110,6 +110,13 @@ func main() {
 		defer func() {
 			if x := recover(); x != nil {
 				fmt.Printf("ANALYZER PANIC: %v\n%s\n", x, debug.Stack())
+				if *findings {
+					// self-test / triage mode never writes evidence: report the panic as a finding of its own
+					fmt.Println("FINDING infra|panic")
+					fmt.Println("FINDINGS-END")
+					code = 1
+					return
+				}
 				rep.Undecided("infra", "panic", "", fmt.Sprint(x))
 				code = rep.Finish(*verif, seed, cmdline)
 				if code == 0 {
